@@ -76,8 +76,18 @@ REGEX_SPECS = [
      r"for \(const char \* ptr = str; \*ptr != '\\0'; ptr\+\+\)[\s\S]*?switch\(c\)\s*\{([\s\S]*?)default:", r"chars:case\s+'(\\?.)'\s*:\s*c\s*=\s*'(\\?.)'\s*;\s*break;"),
     ("sp_prefix", "regex/StringMatcher.cpp",      # flat pairs (char, prefix):  case 'x':  regexPattern += 'y';  break;
      r"for \(const char \* ptr = str; \*ptr != '\\0'; ptr\+\+\)[\s\S]*?switch\(c\)\s*\{([\s\S]*?)default:", r"chars:case\s+'(\\?.)'\s*:\s*regexPattern\s*\+=\s*'(\\?.)'\s*;\s*break;"),
-    ("sp_escape", "regex/StringMatcher.cpp",      # chars that switch escapeMode on:  case 'x':  escapeMode = true;  break;
-     r"for \(const char \* ptr = str; \*ptr != '\\0'; ptr\+\+\)[\s\S]*?switch\(c\)\s*\{([\s\S]*?)default:", r"chars:case\s+'(\\?.)'\s*:\s*escapeMode\s*=\s*true\s*;\s*break;"),
+    ("sp_escape", "regex/StringMatcher.cpp",      # chars that switch escapeMode on:  case 'x':  escapeMode = true;  break; (or continue;)
+     r"for \(const char \* ptr = str; \*ptr != '\\0'; ptr\+\+\)[\s\S]*?switch\(c\)\s*\{([\s\S]*?)default:", r"chars:case\s+'(\\?.)'\s*:\s*escapeMode\s*=\s*true\s*;\s*(?:break|continue);"),
+    ("sp_escape_emits_itself", "regex/StringMatcher.cpp",   # 1: `break` (the escape char falls through to `regexPattern += c`), 0: `continue`
+     r"case\s+'\\\\'\s*:\s*escapeMode\s*=\s*true\s*;\s*break;", "flag"),
+    ("sp_escaped_form", "regex/StringMatcher.cpp",          # either form of the escapeMode branch must be present (an unknown third form is an error)
+     r"if \(escapeMode\)\s*\{?\s*(escapeMode = false;)(?:\s*if \(strchr\(\"(?:[^\"\\]|\\.)*\", c\) != NULL\) regexPattern \+= '\\\\';[^\n]*\n\s*\})?\s*else\b", "str"),
+    ("sp_escaped_prefix_for", "regex/StringMatcher.cpp",    # escaped chars that get a backslash of their own in the regex ([] when the branch has no such list)
+     r"if \(escapeMode\)\s*\{\s*escapeMode = false;\s*if \(strchr\(\"((?:[^\"\\]|\\.)*)\", c\) != NULL\) regexPattern \+= '\\\\';", "opt-cstr"),
+    ("sp_trailing", "regex/StringMatcher.cpp",              # what a pattern ending in escapeMode appends
+     r"if \(escapeMode\) regexPattern \+= (?:'|\")((?:[^\"'\\]|\\.)*)(?:'|\")\s*;\s*//\s*just in case", "cstr"),
+    ("une_keeps_trailing", "regex/StringMatcher.cpp",       # RemoveEscapeChars: 1 iff a trailing lone backslash is kept
+     r"if \(lastWasEscape\) ret \+= '\\\\';", "flag"),
     ("sp_ncases", "regex/StringMatcher.cpp",      # number of case labels in that switch (so an unmodelled new case breaks a proof)
      r"for \(const char \* ptr = str; \*ptr != '\\0'; ptr\+\+\)[\s\S]*?switch\(c\)\s*\{([\s\S]*?)default:", r"count:case\s+'(\\?.)'\s*:"),
     ("sp_regex_prefix", "regex/StringMatcher.cpp", r"regexPattern\s*=\s*\"([^\"]*)\"\s*;", "cstr"),
@@ -88,8 +98,10 @@ REGEX_SPECS = [
     ("sp_range_close", "regex/StringMatcher.cpp", r"rBracket = strchr\(str\+1, '(\\?.)'\)", "cchar"),
     ("sp_range_dash", "regex/StringMatcher.cpp", r"dash = strchr\(clause, '(\\?.)'\)", "cchar"),
     ("sp_range_seps", "regex/StringMatcher.cpp", r"StringTokenizer clauses\(&str\[1\], \"([^\"]*)\"\)", "cstr"),
-    ("sp_skip_escape_pair", "regex/StringMatcher.cpp",   # [a; b]: a leading "ab" loses its first character ("\<" -> "<")
-     r"(if \(\(str\[0\] == '\\?.'\)&&\(str\[1\] == '\\?.'\)\) str\+\+;)", r"chars:'(\\?.)'"),
+    ("sp_skip_escape_first", "regex/StringMatcher.cpp",   # a leading "ab" (a = this char, b in the list below) loses its first character ("\\<" -> "<")
+     r"if \(\(str\[0\] == '(\\?.)'\)&&\(+str\[1\] == [^;]*?\) str\+\+;", "cchar"),
+    ("sp_skip_escape_seconds", "regex/StringMatcher.cpp",
+     r"if \(\(str\[0\] == '\\?.'\)&&(\(+str\[1\] == [^;]*?)\) str\+\+;", r"chars:str\[1\] == '(\\?.)'"),
     ("sp_range_all_char", "regex/StringMatcher.cpp", r"else if \(clause\[0\] != '(\\?.)'\) min = max =", "cchar"),
     ("cw_rawregex_char", "regex/StringMatcher.cpp", r"if \(str\[0\] == '(\\?.)'\) return true;", "cchar"),
     ("cw_ignored_char", "regex/StringMatcher.cpp", r"\(isEscape == false\)&&\(\*s != '(\\?.)'\)&&\(prevCharWasEscape == false\)", "cchar"),
@@ -107,6 +119,35 @@ REGEX_SPECS = [
     ("mini_chunk_header_words", "iogateway/MiniPacketTunnelIOGateway.cpp", r"CHUNK_HEADER_SIZE\s*=\s*(\d+)\s*\*\s*\(sizeof\(uint32\)\)\s*;", "int"),
     ("mini_packet_id_modulus", "iogateway/MiniPacketTunnelIOGateway.cpp", r"_sendPacketIDCounter\s*=\s*\(_sendPacketIDCounter\+1\)\s*%\s*(\d+)\s*;", "int"),
     ("mini_clevel_shift", "iogateway/MiniPacketTunnelIOGateway.cpp", r"\(\(\(uint32\)_sendCompressionLevel\)<<(\d+)\)", "int"),
+    # --- Thread messaging (C11): how many signal bytes one WaitForNextMessageAux() call absorbs (system/Thread.cpp)
+    ("thread_signal_absorb_size", "system/Thread.cpp", r"uint8\s+bytes\[(\d+)\]\s*;\s*\(void\)\s*recv_ignore_eintr", "int"),
+    # --- query filters (C14): archive field names (string literals of the SaveToArchive methods) and the lexer's tables
+    ("qf_fn", "regex/QueryFilter.cpp", r"archive\.AddString\(\"([^\"]*)\", _fieldName\)", "cstr"),
+    ("qf_idx", "regex/QueryFilter.cpp", r"archive\.CAddInt32\(\"([^\"]*)\", _index\)", "cstr"),
+    ("qf_what_min", "regex/QueryFilter.cpp", r"archive\.CAddInt32\(\"([^\"]*)\", _minWhatCode\)", "cstr"),
+    ("qf_what_max", "regex/QueryFilter.cpp", r"archive\.CAddInt32\(\"([^\"]*)\", _maxWhatCode, _minWhatCode\)", "cstr"),
+    ("qf_exists_type", "regex/QueryFilter.cpp", r"return archive\.CAddInt32\(\"([^\"]*)\", _typeCode, B_ANY_TYPE\)", "cstr"),
+    ("qf_multi_kid", "regex/QueryFilter.cpp", r"archive\.AddArchiveMessage\(\"([^\"]*)\", \*nextChild\)", "cstr"),
+    ("qf_min_matches", "regex/QueryFilter.cpp", r"archive\.CAddInt32\(\"([^\"]*)\", _minMatches, MUSCLE_NO_LIMIT\)", "cstr"),
+    ("qf_max_matches", "regex/QueryFilter.cpp", r"archive\.CAddInt32\(\"([^\"]*)\", _maxMatches\)", "cstr"),
+    ("qf_msg_kid", "regex/QueryFilter.cpp", r"archive\.AddArchiveMessage\(\"([^\"]*)\", \*_childFilter\(\)\)", "cstr"),
+    ("qf_msg_defmsg", "regex/QueryFilter.cpp", r"archive\.CAddMessage\(\"([^\"]*)\", CastAwayConstFromRef\(_optDefaultChildMessage\)\)", "cstr"),
+    ("qf_str_val", "regex/QueryFilter.cpp", r"archive\.AddString\(\"([^\"]*)\", _value\)", "cstr"),
+    ("qf_str_def", "regex/QueryFilter.cpp", r"archive\.AddString\(\"([^\"]*)\", _default\)", "cstr"),
+    ("qf_str_op", "regex/QueryFilter.cpp", r"\? archive\.AddInt8\(\"([^\"]*)\", _op\) : ret;", "cstr"),
+    ("qf_raw_op", "regex/QueryFilter.cpp", r"MRETURN_ON_ERROR\(archive\.AddInt8\(\"([^\"]*)\", _op\)\);", "cstr"),
+    ("qf_raw_type", "regex/QueryFilter.cpp", r"MRETURN_ON_ERROR\(archive\.CAddInt32\(\"([^\"]*)\", _typeCode, B_ANY_TYPE\)\);", "cstr"),
+    ("qf_raw_val", "regex/QueryFilter.cpp", r"if \(\(bytes\)&&\(numBytes > 0\)\) MRETURN_ON_ERROR\(archive\.AddData\(\"([^\"]*)\", B_RAW_TYPE, bytes, numBytes\)\);", "cstr"),
+    ("qf_raw_def", "regex/QueryFilter.cpp", r"if \(bytes\) MRETURN_ON_ERROR\(archive\.AddData\(\"([^\"]*)\", B_RAW_TYPE, bytes, numBytes\)\);", "cstr"),
+    ("qf_num_op", "regex/QueryFilter.h", r"archive\.CAddInt8\(\"([^\"]*)\", _op\)", "cstr"),
+    ("qf_num_mop", "regex/QueryFilter.h", r"archive\.CAddInt8\(\"([^\"]*)\", _maskOp\)", "cstr"),
+    ("qf_num_val", "regex/QueryFilter.h", r"archive\.AddData\(\"([^\"]*)\", DataTypeCode, &_value,\s*sizeof\(_value\)\)", "cstr"),
+    ("qf_num_msk", "regex/QueryFilter.h", r"archive\.AddData\(\"([^\"]*)\", DataTypeCode, &_mask,\s*sizeof\(_mask\)\)", "cstr"),
+    ("qf_num_def", "regex/QueryFilter.h", r"archive\.AddData\(\"([^\"]*)\", DataTypeCode, &_default,\s*sizeof\(_default\)\)", "cstr"),
+    # kind "cstrs:<inner regex>": every group of every inner match in the region is a C string -> `list (list N)`
+    ("qf_tok_strs", "regex/QueryFilter.cpp", r"static const char \* _tokStrs\[\] =\s*\{([\s\S]*?)\n\};", r"cstrs:^\s*\"((?:[^\"\\]|\\.)*)\"\s*,"),
+    ("qf_synonyms", "regex/QueryFilter.cpp",      # flat pairs (synonym text, token identifier), in the order they are tried
+     r"static int32 GetMatchingToken\(const char \* s, uint32 & retNumCharsConsumed\)\s*\{([\s\S]*?)\n\}", r"cstrs:RETURN_ON_SYNONYM_FOR_TOKEN\(s, \"([^\"]*)\",\s*(\w+)\)"),
 ]
 
 
@@ -177,6 +218,14 @@ def generate(repo):
     for name, rel, rx, kind in REGEX_SPECS:
         txt = _read(repo, rel)
         m = re.search(rx, txt)
+        if kind == "flag":            # C15: 1 iff the construct is present
+            out.append("Definition c_%s : N := %d%%N." % (name, 1 if m else 0))
+            info[name] = 1 if m else 0
+            continue
+        if kind == "opt-cstr" and not m:
+            out.append("Definition c_%s : list N := []%%N." % name)
+            info[name] = []
+            continue
         if not m:
             raise RuntimeError("translator: declaration for %s not found in %s (pattern %s)" % (name, rel, rx))
         v = m.group(1)
@@ -197,10 +246,17 @@ def generate(repo):
             else:
                 out.append("Definition c_%s : list N := [%s]%%N." % (name, "; ".join(map(str, codes))))
                 info[name] = codes
+        elif kind.startswith("cstrs:"):     # C14: a table of C strings as `list (list N)`
+            strs = []
+            for mm in re.finditer(kind[6:], v, re.M):
+                for g in mm.groups():
+                    strs.append([c_char_code(x) for x in re.findall(r"\\.|[^\\]", g)])
+            out.append("Definition c_%s : list (list N) := [%s]%%N." % (name, "; ".join("[" + "; ".join(map(str, x)) + "]" for x in strs)))
+            info[name] = strs
         elif kind == "cchar":
             out.append("Definition c_%s : N := %d%%N." % (name, c_char_code(v)))
             info[name] = c_char_code(v)
-        elif kind == "cstr":
+        elif kind in ("cstr", "opt-cstr"):
             codes = [c_char_code(x) for x in re.findall(r"\\.|[^\\]", v)]
             out.append("Definition c_%s : list N := [%s]%%N." % (name, "; ".join(map(str, codes))))
             info[name] = codes
